@@ -55,6 +55,7 @@ func init() {
 		"fmt.Sprint":                               pureFreshString,
 		"fmt.Sprintln":                             pureFreshString,
 		"fmt.Println":                              pureHavoc,
+		"(*sync.Once).Do":                          syncOnceDo,
 		// file-system effects are outside the memory model: the calls return arbitrary results and touch no Go memory;
 		// what is written where is specified at the call sites (precall clauses)
 		"os.MkdirAll":                              pureHavoc,
@@ -1117,5 +1118,27 @@ func sortSlice(f *Frame, st *state, callee *ssa.Function, args []Val, ins ssa.In
 	// ordered by the comparison, evaluated on the new contents
 	lt := u.evalPureClosure(f, st, less, []Val{{T: types.Typ[types.Int], S: []string{"j!"}}, {T: types.Typ[types.Int], S: []string{"i!"}}})
 	u.ctx.assert("lib:sort.Slice", fmt.Sprintf("(forall ((i! Int) (j! Int)) (=> (and (<= 0 i!) (< i! j!) (< j! %s)) (not %s)))", n, lt))
+	return nil
+}
+
+// syncOnceDo models (*sync.Once).Do(f) sequentially: a ghost flag per Once value records whether f has run; when it
+// has not, the (statically known) closure is inlined once and the flag is set. Concurrent callers are outside the model.
+func syncOnceDo(f *Frame, st *state, callee *ssa.Function, args []Val, ins ssa.Instruction, resT types.Type) *Val {
+	u := f.u
+	o, fn := args[0], args[1]
+	if fn.Fn == nil {
+		return f.abstractCall(st, nil, ins, resT, "sync.Once.Do with a function value that is not statically known")
+	}
+	const site = "sync.Once.$done"
+	u.oblige(f, st, "nil", f.ordLabel(ins, "nil"), ins.Pos(), not(eq(o.S[0], "0")))
+	doneArr := u.arr(st.mem, site, SBool)
+	done := u.ctx.def("oncedone", SBool, sel(doneArr, o.S[0]))
+	before := st.reach
+	run := &state{reach: u.ctx.def("oncerun", SBool, and(before, not(done))), mem: st.mem.clone()}
+	f.callStatic(run, fn.Fn, nil, fn.Binds, ins, nil)
+	skip := u.ctx.def("onceskip", SBool, and(before, done))
+	st.mem = u.mergeMem([]string{run.reach, skip}, []*Mem{run.mem, st.mem})
+	st.reach = u.ctx.def("onceafter", SBool, or(run.reach, skip))
+	u.setArr(st.mem, site, SBool, store(u.arr(st.mem, site, SBool), o.S[0], "true"))
 	return nil
 }
